@@ -260,10 +260,17 @@ class MultiFit(FitBase):
                 _lower = _data_indices[_j]
                 _upper = _data_indices[_j + 1]
                 _combined_property[_lower:_upper, _lower:_upper] = _single_fit_property
-            for _error_dict in self._shared_error_dicts.values():
+            for _error_name, _error_dict in self._shared_error_dicts.items():
                 if _error_dict["axis"] != axis_name:
                     continue
                 _error = _error_dict["err"]
+                # a shared source that has been disabled (in the members' containers) contributes nothing
+                _targets = [
+                    self._fits[_fit_index].data_container if _error_dict["reference_name"] == "data" else self._fits[_fit_index]._param_model
+                    for _fit_index in _error.fit_indices
+                ]
+                if not all(_target.get_error(_error_name)["enabled"] for _target in _targets):
+                    continue
                 for _j, _fit_index_j in enumerate(_error.fit_indices):
                     _data_index_j = _fit_index_to_data_index[_fit_index_j]
                     _lower_j = _data_indices[_data_index_j]
